@@ -17,6 +17,12 @@ pub enum ErrKind {
     InvalidData,
     RawEio,
     RawEnospc,
+    InvalidInput,
+    NotFound,
+    ConnectionAborted,
+    Unsupported,
+    OutOfMemory,
+    RawEbadf,
 }
 
 pub const ERR_KINDS: &[ErrKind] = &[
@@ -30,6 +36,12 @@ pub const ERR_KINDS: &[ErrKind] = &[
     ErrKind::InvalidData,
     ErrKind::RawEio,
     ErrKind::RawEnospc,
+    ErrKind::InvalidInput,
+    ErrKind::NotFound,
+    ErrKind::ConnectionAborted,
+    ErrKind::Unsupported,
+    ErrKind::OutOfMemory,
+    ErrKind::RawEbadf,
 ];
 
 impl ErrKind {
@@ -45,6 +57,12 @@ impl ErrKind {
             ErrKind::InvalidData => "InvalidData",
             ErrKind::RawEio => "RawEIO",
             ErrKind::RawEnospc => "RawENOSPC",
+            ErrKind::InvalidInput => "InvalidInput",
+            ErrKind::NotFound => "NotFound",
+            ErrKind::ConnectionAborted => "ConnectionAborted",
+            ErrKind::Unsupported => "Unsupported",
+            ErrKind::OutOfMemory => "OutOfMemory",
+            ErrKind::RawEbadf => "RawEBADF",
         }
     }
     pub fn parse(s: &str) -> Option<ErrKind> {
@@ -62,6 +80,12 @@ impl ErrKind {
             ErrKind::InvalidData => io::Error::new(io::ErrorKind::InvalidData, SimIoError),
             ErrKind::RawEio => io::Error::from_raw_os_error(libc::EIO),
             ErrKind::RawEnospc => io::Error::from_raw_os_error(libc::ENOSPC),
+            ErrKind::InvalidInput => io::Error::new(io::ErrorKind::InvalidInput, SimIoError),
+            ErrKind::NotFound => io::Error::new(io::ErrorKind::NotFound, SimIoError),
+            ErrKind::ConnectionAborted => io::Error::new(io::ErrorKind::ConnectionAborted, SimIoError),
+            ErrKind::Unsupported => io::Error::new(io::ErrorKind::Unsupported, SimIoError),
+            ErrKind::OutOfMemory => io::Error::new(io::ErrorKind::OutOfMemory, SimIoError),
+            ErrKind::RawEbadf => io::Error::from_raw_os_error(libc::EBADF),
         }
     }
     /// Does `e` look like the error this kind injects?
@@ -69,6 +93,7 @@ impl ErrKind {
         match self {
             ErrKind::RawEio => e.raw_os_error() == Some(libc::EIO),
             ErrKind::RawEnospc => e.raw_os_error() == Some(libc::ENOSPC),
+            ErrKind::RawEbadf => e.raw_os_error() == Some(libc::EBADF),
             _ => e.kind() == self.make().kind(),
         }
     }
